@@ -451,7 +451,7 @@ func TestC04(t *testing.T) {
 
 	inputs := inputGen()
 	biased := gen.RewriteBiased(gen.Conf{AltPat: true, AltPatFree: true, Paths: true, Builtins: true, Halt: true})
-	rec.Rapid(t, "biased", rec.Scale(40000, 1500000), func(t *rapid.T) {
+	rec.Rapid(t, "biased", rec.Scale(40000, 700000), func(t *rapid.T) {
 		p := biased.Draw(t, "prog")
 		c := optCase{Query: p.Src, Input: univ.V{X: inputs.Draw(t, "input")}, Masks: masks(t), Features: p.Features}
 		rec.Class("tier/biased")
@@ -460,7 +460,7 @@ func TestC04(t *testing.T) {
 		}
 	})
 	general := gen.Program(gen.Conf{AltPat: true, AltPatFree: true, Paths: true, Builtins: true, Halt: true, Update: true, MaxNodes: 40})
-	rec.Rapid(t, "general", rec.Scale(20000, 1000000), func(t *rapid.T) {
+	rec.Rapid(t, "general", rec.Scale(20000, 400000), func(t *rapid.T) {
 		p := general.Draw(t, "prog")
 		c := optCase{Query: p.Src, Input: univ.V{X: inputs.Draw(t, "input")}, Masks: masks(t), Features: p.Features}
 		rec.Class("tier/general")
